@@ -3,6 +3,7 @@ package fakes
 import (
 	"context"
 	"errors"
+	"verif/sim/simrt"
 
 	awsv2 "github.com/aws/aws-sdk-go-v2/aws"
 	ddbv2 "github.com/aws/aws-sdk-go-v2/service/dynamodb"
@@ -111,6 +112,9 @@ func v1err(err error) error {
 }
 
 func (c V1) GetItemWithContext(_ awsv1.Context, in *ddbv1.GetItemInput, _ ...request.Option) (*ddbv1.GetItemOutput, error) {
+	// the SDK serialises the request some time after the caller built it: whatever another goroutine
+	// does to shared request values until then goes on the wire
+	c.D.S.Point(simrt.KSeam, "ddb.request.marshal")
 	it, err := c.D.GetItem(awsv1.StringValue(in.TableName), itemFromV1(in.Key), awsv1.BoolValue(in.ConsistentRead), awsv1.StringValue(in.ProjectionExpression), namesV1(in.ExpressionAttributeNames))
 	if err != nil {
 		return nil, v1err(err)
@@ -119,6 +123,9 @@ func (c V1) GetItemWithContext(_ awsv1.Context, in *ddbv1.GetItemInput, _ ...req
 }
 
 func (c V1) PutItemWithContext(_ awsv1.Context, in *ddbv1.PutItemInput, _ ...request.Option) (*ddbv1.PutItemOutput, error) {
+	// the SDK serialises the request some time after the caller built it: whatever another goroutine
+	// does to shared request values until then goes on the wire
+	c.D.S.Point(simrt.KSeam, "ddb.request.marshal")
 	if err := c.D.PutItem(awsv1.StringValue(in.TableName), itemFromV1(in.Item), awsv1.StringValue(in.ConditionExpression), namesV1(in.ExpressionAttributeNames), map[string]Val(itemFromV1(in.ExpressionAttributeValues))); err != nil {
 		return nil, v1err(err)
 	}
@@ -126,6 +133,9 @@ func (c V1) PutItemWithContext(_ awsv1.Context, in *ddbv1.PutItemInput, _ ...req
 }
 
 func (c V1) QueryWithContext(_ awsv1.Context, in *ddbv1.QueryInput, _ ...request.Option) (*ddbv1.QueryOutput, error) {
+	// the SDK serialises the request some time after the caller built it: whatever another goroutine
+	// does to shared request values until then goes on the wire
+	c.D.S.Point(simrt.KSeam, "ddb.request.marshal")
 	vals := map[string]Val{}
 	for k, v := range in.ExpressionAttributeValues {
 		vals[k] = fromV1(v)
@@ -241,6 +251,9 @@ func v2err(err error) error {
 func (c V2) Options() ddbv2.Options { return ddbv2.Options{Region: c.Region} }
 
 func (c V2) GetItem(_ context.Context, in *ddbv2.GetItemInput, _ ...func(*ddbv2.Options)) (*ddbv2.GetItemOutput, error) {
+	// the SDK serialises the request some time after the caller built it: whatever another goroutine
+	// does to shared request values until then goes on the wire
+	c.D.S.Point(simrt.KSeam, "ddb.request.marshal")
 	it, err := c.D.GetItem(awsv2.ToString(in.TableName), itemFromV2(in.Key), awsv2.ToBool(in.ConsistentRead), awsv2.ToString(in.ProjectionExpression), in.ExpressionAttributeNames)
 	if err != nil {
 		return nil, v2err(err)
@@ -249,6 +262,9 @@ func (c V2) GetItem(_ context.Context, in *ddbv2.GetItemInput, _ ...func(*ddbv2.
 }
 
 func (c V2) PutItem(_ context.Context, in *ddbv2.PutItemInput, _ ...func(*ddbv2.Options)) (*ddbv2.PutItemOutput, error) {
+	// the SDK serialises the request some time after the caller built it: whatever another goroutine
+	// does to shared request values until then goes on the wire
+	c.D.S.Point(simrt.KSeam, "ddb.request.marshal")
 	if err := c.D.PutItem(awsv2.ToString(in.TableName), itemFromV2(in.Item), awsv2.ToString(in.ConditionExpression), in.ExpressionAttributeNames, map[string]Val(itemFromV2(in.ExpressionAttributeValues))); err != nil {
 		return nil, v2err(err)
 	}
@@ -256,6 +272,9 @@ func (c V2) PutItem(_ context.Context, in *ddbv2.PutItemInput, _ ...func(*ddbv2.
 }
 
 func (c V2) Query(_ context.Context, in *ddbv2.QueryInput, _ ...func(*ddbv2.Options)) (*ddbv2.QueryOutput, error) {
+	// the SDK serialises the request some time after the caller built it: whatever another goroutine
+	// does to shared request values until then goes on the wire
+	c.D.S.Point(simrt.KSeam, "ddb.request.marshal")
 	vals := map[string]Val{}
 	for k, v := range in.ExpressionAttributeValues {
 		vals[k] = fromV2(v)
